@@ -87,6 +87,16 @@ pub fn directed() -> Vec<(&'static str, Vec<Step>)> {
             ],
         ),
         (
+            "strings-around-the-64KiB-escape",
+            vec![
+                create("T"),
+                ins("T", vec![vec![V::Int(1), V::Str("a".repeat(65_534))], vec![V::Int(2), V::Str("b".repeat(65_535))], vec![V::Int(3), V::Str("c".repeat(65_536))], vec![V::Int(4), V::s("t0x4 after")]]),
+                Step::Close(CloseMode::IntoInner),
+                d(Op::Delete { table: "T".into(), cond: keq(2) }),
+                ins("T", vec![vec![V::Int(5), V::Str("é".repeat(32_767) + "x")], vec![V::Int(6), V::s("t0x6 after")]]),
+            ],
+        ),
+        (
             "same-string-twice-in-one-row",
             vec![
                 d(Op::CreateTable {
